@@ -36,7 +36,11 @@ def against (exp : Except GenError Groups) (c : Ctx) (r : Run) : Status :=
   | .ok gs, .ok o =>
     match realGroups o with
     | .error e => .fail e
-    | .ok rg => if sameGroups gs rg then .ok else .fail s!"groups differ: expected {describe exp}, real {rg}"
+    | .ok rg =>
+      if !sameGroups gs rg then .fail s!"groups differ: expected {describe exp}, real {rg}"
+      -- the numbering is only worth something if the pipeline layout puts group k at index k
+      else if o.pipelineGroups != gs.map (·.1) then .fail s!"pipeline layout lists the groups as {o.pipelineGroups}, expected {gs.map (·.1)}"
+      else .ok
   | .ok _, .panic _ => .skip "later-panic"
   | .ok _, .okUndecodable w => .fail s!"real output undecodable: {w}"
   | e, real => .fail s!"expected {describe e}, real {shortRepr real 200}"
